@@ -124,6 +124,15 @@ func (c *caseCtx) judge(tree *gen.Expr, expr string, doc interface{}, api string
 			break
 		}
 	}
+	if class == "" {
+		ek := "value"
+		if isErr(res) {
+			ek = "error"
+		} else if !nonNull(res) {
+			ek = "null"
+		}
+		class = c.wl + ": expected " + ek + ", observed " + obs.Class()
+	}
 	c.r.Violate(&mon.Violation{Workload: c.wl, Index: c.idx, API: api, Expr: expr, Doc: doc,
 		Expected: expectedString(res), Observed: obs.String(), Class: class})
 	return false
